@@ -199,3 +199,116 @@ def validate(ctx, traces, prefixes, label, discr=None):
         ctx.extra["rejections_owned_by_other_properties"] = foreign
         ctx.log("sessions rejected by clauses of other properties (reported by their checks):", foreign)
     return res
+
+
+PROFILES = {
+    # weights of: arrival, tick, power, format, drop/mute, sim-params (TA/power/fake windows), retune/hop
+    "C03": dict(arr=0.42, tick=0.33, power=0.10, fmt=0.08, drop=0.02, simp=0.00, tune=0.05, off=(-3, 5), wrap=0.5, big=False),
+    "C18": dict(arr=0.45, tick=0.28, power=0.02, fmt=0.05, drop=0.18, simp=0.00, tune=0.02, off=(0, 2), wrap=0.1, big=False),
+    "C02": dict(arr=0.40, tick=0.25, power=0.10, fmt=0.03, drop=0.02, simp=0.00, tune=0.20, off=(0, 1), wrap=0.3, big=True),
+    "C10": dict(arr=0.42, tick=0.30, power=0.01, fmt=0.05, drop=0.00, simp=0.20, tune=0.02, off=(0, 1), wrap=0.1, big=False),
+}
+
+
+def traffic_session(ctx, sid, prof, length=None):
+    """A session with burst traffic.  The profile weights what is interleaved."""
+    import rand_burst_gen
+    rng = ctx.rng
+    seed_random(rng)
+    P = PROFILES[prof]
+    start = None
+    if rng.random() < P["wrap"]:
+        start = HYPER - rng.randint(1, 6)
+    argv = rng.choice(CONFIGS if P["big"] else CONFIGS[:3])
+    sim = mk_sim(rng, argv=argv, start=start)
+    s = Session(sid, sim)
+    n = len(sim.trx)
+    gen = rand_burst_gen.RandBurstGen()
+    hop = rng.random() < (0.5 if prof == "C02" else 0.15)
+    setup_pair(s, rng, hop=hop)
+    for t in range(2, n):                     # extra transceivers: tuned like the BTS or elsewhere
+        if rng.random() < 0.8:
+            s.cmd(t, "CMD RXTUNE %d" % rng.choice(FREQS))
+            s.cmd(t, "CMD TXTUNE %d" % rng.choice(FREQS))
+    for t in range(n):
+        if rng.random() < 0.6:
+            s.cmd(t, "CMD SETFORMAT %d" % rng.choice([0, 1]))
+    for t in range(n):
+        if rng.random() < 0.9:
+            s.cmd(t, "CMD POWERON")
+    g = sim.app.clck_gen
+    steps = length or rng.randint(25, 70)
+    for _ in range(steps):
+        r = rng.random()
+        t = rng.randrange(n)
+        trx = sim.trx[t]
+        if r < P["arr"]:
+            src = g.clck_src if g.running else 0
+            off = rng.randint(*P["off"])
+            if rng.random() < 0.03:
+                off = rng.choice([HYPER // 2, HYPER // 4, -(HYPER // 4) - 1, 100000, -100000])
+            fn = (src + off) % HYPER
+            ver = trx.data_if._hdr_ver if rng.random() < 0.9 else 1 - trx.data_if._hdr_ver
+            kind, bits = burst_bits(rng, gen)
+            if not unique_tsc(bits):
+                continue
+            if rng.random() < 0.03:
+                bits = bits[:rng.choice([0, 1, 100, 147])]        # odd lengths: accepted by the parser, refused at send time
+            pwr = rng.choice([0, 0, 1, 10, 20, 63, 255, rng.randrange(256)])
+            raw = tx_datagram(ver, fn, rng.randrange(8), pwr, bits) if len(bits) in (148, 444) else \
+                bytes([(ver << 4) | rng.randrange(8)]) + fn.to_bytes(4, "big") + bytes([pwr]) + bytes(bits)
+            s.data(t, raw)
+        elif r < P["arr"] + P["tick"]:
+            for _ in range(rng.choice([1, 1, 1, 2, 3])):
+                s.tick()
+        elif r < P["arr"] + P["tick"] + P["power"]:
+            s.cmd(t, rng.choice(["CMD POWEROFF", "CMD POWERON", "CMD POWERON"]))
+        elif r < P["arr"] + P["tick"] + P["power"] + P["fmt"]:
+            s.cmd(t, "CMD SETFORMAT %d" % rng.choice([0, 1, 1, 2]))
+        elif r < P["arr"] + P["tick"] + P["power"] + P["fmt"] + P["drop"]:
+            s.cmd(t, rng.choice(["CMD FAKE_DROP %d" % rng.choice([0, 1, 2, 3, 6, -1]),
+                                 "CMD FAKE_DROP %d %d" % (rng.choice([1, 2, 3, 6, -2]), rng.choice([1, 2, 3, 5, 0])),
+                                 "CMD RFMUTE %d" % rng.choice([0, 1])]))
+        elif r < P["arr"] + P["tick"] + P["power"] + P["fmt"] + P["drop"] + P["simp"]:
+            s.cmd(t, rng.choice([
+                "CMD SETTA %d" % rng.choice([0, 1, 2, 63, -1, -128, 127]),
+                "CMD SETPOWER %d" % rng.choice([0, 3, 10, 20, 60]),
+                "CMD FAKE_TOA %d %d" % (rng.choice([0, 256, -256, 1000, -1000, 32000]), rng.choice([0, 0, 5, 100])),
+                "CMD FAKE_TOA %d" % rng.choice([1, -1, 256, -256]),
+                "CMD FAKE_RSSI %d %d" % (rng.choice([-60, -50, -110, -80, -119]), rng.choice([0, 0, 1, 3, -1])),
+                "CMD FAKE_RSSI %d" % rng.choice([1, -1, 5, -5]),
+                "CMD FAKE_CI %d %d" % (rng.choice([90, 0, -30, 1270, -1270]), rng.choice([0, 0, 5, 10])),
+                "CMD FAKE_CI %d" % rng.choice([1, -1, 10])]))
+        else:
+            if rng.random() < 0.5:
+                k = rng.randint(1, 4)
+                ma = [rng.choice(FREQS) for _ in range(2 * k)]
+                s.cmd(t, "CMD SETFH %d %d %s" % (rng.randrange(64), rng.randrange(64), " ".join(str(x) for x in ma)))
+            else:
+                s.cmd(t, "CMD %s %d" % (rng.choice(["RXTUNE", "TXTUNE"]), rng.choice(FREQS)))
+    # drain: tick past everything that is still queued, then power off
+    if g.running:
+        for _ in range(7):
+            s.tick()
+    for t in range(n):
+        s.cmd(t, "CMD POWEROFF")
+    return s.trace()
+
+
+def traffic_stats(ctx, traces):
+    nd = nb = nn = ns = 0
+    for t in traces:
+        ctx.count()
+        for e in t["ev"]:
+            if e["e"] == "tick":
+                for o in e["outs"]:
+                    if o["kind"] == "data":
+                        nd += 1
+                        if len(o["raw"]) <= 12:
+                            nn += 1
+                ns += len(e["stales"])
+            elif e["e"] == "data" and e["acc"]:
+                nb += 1
+        ctx.distinct(t["id"] + str(t["cfg"]["argv"]) + str(len(t["ev"])))
+    ctx.extra.update(bursts_accepted=nb, datagrams_delivered=nd, nope_indications=nn, stale_reports=ns)
+    return nd
